@@ -495,6 +495,7 @@ func checkC09(c *Ctx) {
 			ptrs = append(ptrs, &encs[i])
 		}
 		runConcreteTypes(c, "c09/concrete", ptrs, []uint8{0x00, 0xFF, 0x45, 0xBA})
+		runDeviceShapes(c, "c09/shapes")
 	}
 	c.Exhaustive = true
 	c.Set("parameter_points", len(pts))
